@@ -141,7 +141,9 @@ LawYearFrac ==
           /\ basis = 3 => res = Rat(days, 365)
           /\ basis \in {0, 4} => /\ DateCall("YEARFRAC", <<A[1], A[2], Whole(4 - basis)>>) = res
                                  /\ Abs(res.n * 360 - days * res.d) <= 8 * res.d * (1 + days \div 365)   \* 30/360 stays near actual
-          /\ basis = 1 => (res = Whole(0)) = (days = 0) /\ res.n <= res.d     \* at most one year (a period of exactly one year is 1)
+          \* actual/actual lies between days/366 and days/365 (checked where the products stay small)
+          /\ basis = 1 => /\ (res = Whole(0)) = (days = 0)
+                          /\ days <= 5000 => (res.n * 365 <= days * res.d /\ res.n * 366 >= days * res.d)
 LawTimeOfDay == \* order and difference of two stamps on one day are those of their times
     (Done /\ case.f \in DateOpFuncs /\ IsD(A[1]) /\ IsD(A[2]) /\ A[1].s = A[2].s /\ res.t \in {"num", "bool"} /\ (A[1].fd <= 20000 \/ A[2].fd <= 20000))
     => LET t1 == A[1].fn * A[2].fd  t2 == A[2].fn * A[1].fd IN
